@@ -135,7 +135,10 @@ def main():
                "iscsi://H.Example.COM/IQN.Mixed:Case/0", "iscsi://h/t@x/0",
                node.path + "{a,b}", "/dev/{0}", "/dev/%s", "/dev/shm/sd{", "iscsi://h/t{pool}/0", "iscsi://h/%(t)s/0", "{dev}", "%d",
                "iscsi:/", "iscsi:/h/t/0", "", "sg0", "/tmp/x", "ISCSI://h/t/0", "/DEV/sg0", "dev/sg0", " /dev/sg0", "/de", "iscsi",
-               "/dev", "file:///dev/sg0", "//dev/sg0"]
+               "/dev", "file:///dev/sg0", "//dev/sg0",
+               # strings a URL parser has its own opinion about (unbalanced or non-address brackets, odd ports)
+               "iscsi://[fe80::1/iqn.x:y/0", "iscsi://[storage-1]:3260/iqn.x:y/0", "iscsi://10.0.0.1]:3260/iqn.x:y/0", "nbd://[::1", "//[", "http://a]b/c",
+               "iscsi://h:notaport/t/0", "iscsi://h:99999/t/0", "nbd://h:x/", "http://[::1]:notaport/"]
     calls = []
     for dev in strings:
         for rw in (False, True):
